@@ -20,6 +20,9 @@ fi
 case $ID in
   C06|C07|C08|C14) PKG=lane ;;
   C19) PKG=c19 ;;
+  C18) PKG=c18 ;;
+  C10) PKG=c10 ;;
+  C09) PKG=c09 ;;
   C16) PKG=c16 ;;
   C17) PKG=c17 ;;
   C15) PKG=c15 ;;
